@@ -56,6 +56,7 @@ type ext struct {
 
 	cli *cliWorld
 	r4  r4
+	r5  r5
 }
 
 func runExtended(c *core.Ctx, base int, a *authority.Assembly, st *authority.State, bundle []byte) {
